@@ -203,7 +203,7 @@ fn update_membership(
     height: u64,
 ) -> StdResult<Vec<SubMsg>> {
     // update their membership weight
-    let new = calc_weight(new_stake, cfg);
+    let new = calc_weight(new_stake, cfg)?;
     let old = MEMBERS.may_load(storage, &sender)?;
 
     // short-circuit if no change
@@ -230,12 +230,14 @@ fn update_membership(
     })
 }
 
-fn calc_weight(stake: Uint128, cfg: &Config) -> Option<u64> {
+fn calc_weight(stake: Uint128, cfg: &Config) -> StdResult<Option<u64>> {
     if stake < cfg.min_bond {
-        None
+        Ok(None)
     } else {
         let w = stake.u128() / (cfg.tokens_per_weight.u128());
-        Some(w as u64)
+        let w = u64::try_from(w)
+            .map_err(|_| cosmwasm_std::StdError::generic_err("Voting weight exceeds u64"))?;
+        Ok(Some(w))
     }
 }
 
